@@ -64,7 +64,7 @@ def gen_case(ctx, k, P):
             xs, cc.matvec(t, xs, n)]
     ks = rng.choice([1, 2, 3, 4])
     base = [("C", 1, 3), ("C", 2, 4), ("C", 5, 6), ("C", 7, 8), ("S", 0, 3, ks), ("CC", 0, 3, ks), ("S", 1, 3, 30)]
-    extra = [("C", 1, 3), ("C", 5, 6), ("C", 0, 4), ("S", 0, 3, ks), ("C", 7, 8), ("S", 2, 6, 2)]
+    extra = [("C", 1, 3), ("C", 5, 6), ("C", 0, 4), ("S", 0, 3, ks), ("C", 7, 8), ("S", 2, 6, 2), ("S", 1, 3, 30), ("S", 1, 3, 30)]
     if cls.startswith("par") and cc.is_symmetric(t) and all(t[(i, i)] > 0 for i in range(n)):
         extra += [("K", 0, 3), ("K", 0, 3)]
     if cls.startswith("par") and USE_BICGSTAB: extra += [("B", 0, 3), ("B", 0, 3)]
@@ -74,6 +74,7 @@ def gen_case(ctx, k, P):
     hist = []
     for o in ops:
         if rng.random() < 0.55: hist.append(("P", rng.choice([0, 0, 1, 1, 2])))
+        if rng.random() < 0.25: hist.append(("X", rng.choice([0, 1, 2]), rng.choice([3, 4])))      # a cycle of a sibling hierarchy in between
         hist.append(o)
     cid = "c%d_p%d" % (k, P)
     line = cc.case_line(cid, cls, opts, t, n, first_rows, vecs, hist)
@@ -113,7 +114,7 @@ def judge(ctx, c, res, model_lines):
     # --- O: history-freedom: same operation, same input => bitwise same output
     groups = {}
     for k, o in enumerate(c["hist"]):
-        if o[0] == "P": continue
+        if o[0] in ("P", "X"): continue
         if o[0] == "CD": o = ("C",) + tuple(o[1:])
         if k not in outs:
             ctx.signal("O", sig0 + ":incomplete", "no output for operation %d %s" % (k, o), case=c["line"]); return
@@ -286,6 +287,7 @@ def replay_case(line):
     for e in range(nops):
         op = t[p]
         if op == "P": hist.append(("P", int(t[p + 1]))); p += 2
+        elif op == "X": hist.append(("X", int(t[p + 1]), int(t[p + 2]))); p += 3
         elif op in ("S", "CC", "SI"): hist.append((op, int(t[p + 1]), int(t[p + 2]), int(t[p + 3]))); p += 4
         else: hist.append((op, int(t[p + 1]), int(t[p + 2]))); p += 3
     # scalars of the linear combination from the pool (entry where x1 or x2 is non-zero)
